@@ -121,6 +121,7 @@ type Frame struct {
 	curBlock   *ssa.BasicBlock
 	curInstr   ssa.Instruction
 	headerFlag map[*ssa.BasicBlock]Term
+	ghostIter  map[*ssa.BasicBlock]Term // ghost count of completed iterations at the loop header (any loop shape)
 }
 
 type retInfo struct {
